@@ -183,6 +183,32 @@ def aliasing_cases(rng, k):
                 bad.append(f"{name}: operand changed from {before_a} to {impl_ps.dump(a)} after editing the result in place")
             if impl_ps.dump(d) != fresh_dump(d):
                 bad.append(f"{name}: result views out of sync after editing it: {impl_ps.dump(d)} vs fresh {fresh_dump(d)}")
+    # producers without an operand (factory functions, the enumeration, products): two calls give two independent objects
+    from paulie.common.pauli_string_factory import get_identity, get_single, get_last, get_pauli_string
+    for _ in range(max(1, k // 4)):
+        n = rng.randint(1, 4)
+        i, lab, j = rng.randrange(n), rng.choice("XYZ"), rng.randrange(4 ** n)
+        u, v = PauliString(pauli_str=rs(rng, n)), PauliString(pauli_str=rs(rng, n))
+        txt = rs(rng, n)
+        producers = {f"get_identity({n})": lambda: get_identity(n), f"get_single({n},{i},{lab})": lambda: get_single(n, i, lab),
+                     f"get_last({n})": lambda: get_last(n), f"PauliString(n={n})": lambda: PauliString(n=n),
+                     f"gen_all_pauli_strings()[{j}] at n={n}": lambda: list(PauliString(n=n).gen_all_pauli_strings())[j],
+                     f"get_pauli_string('{txt}')": lambda: get_pauli_string(txt),
+                     f"{u}@{v}": lambda: u @ v, f"{u}.multiply({v})": lambda: u.multiply(v),
+                     f"{u}.get_commutants()[0]": lambda: u.get_commutants()[0]}
+        for name, f in producers.items():
+            first, x = f(), f()
+            d0 = impl_ps.dump(x)
+            if impl_ps.dump(first) != d0 or d0 != fresh_dump(x):
+                bad.append(f"{name}: two calls give {impl_ps.dump(first)} and {d0} (fresh build of the text: {fresh_dump(x)})")
+                continue
+            for _e in range(rng.randint(1, 3)):
+                edit(x, n)
+            if impl_ps.dump(first) != d0:
+                bad.append(f"{name}: an object handed out earlier changed from {d0} to {impl_ps.dump(first)} after editing another result in place")
+            later = impl_ps.dump(f())
+            if later != d0:
+                bad.append(f"{name}: a later call gives {later} after an earlier result was edited in place (before: {d0})")
     return bad
 
 def shrink_hist(line):
@@ -216,7 +242,8 @@ def main(tier):
         return build_streams(rng, tier)
     rc = standard_main(PID, tier, "proof", THEOREMS, IMPORTS, bs, rule=RULE,
         assumptions=["value model: object independence of tensor/expand/copy results is checked on the implementation only "
-                     "(8 kinds of derived objects, both sides edited in place, all views of the other side observed, 400 x 8 cases per run)",
+                     "(8 kinds of derived objects, both sides edited in place, all views of the other side observed, 400 x 8 cases per run; 9 producers "
+                     "without operand - factory functions, enumeration, products, commutants - called before and after an in-place edit of one result, 100 x 9 cases)",
                      "re-entrant iteration over one object (shared cursor `nextpos`) is runtime behaviour outside the model",
                      "hash is a function of `bits` (hash(str(bits))) and so covered by the equality of views"])
     if res_extra:
